@@ -1056,3 +1056,210 @@ func funcOfTableValue(v ssa.Value) *ssa.Function {
 	}
 	return fn
 }
+
+// ruleJoinAccumulates (C03, C04): the functions that fold the per-intent messages into one error carry their
+// accumulator round the loop: every loop-carried value the result is computed from (the phi of the accumulator at the
+// loop head) is, on the edge that comes back from the loop body, computed from itself. An accumulator that is
+// overwritten per iteration keeps only what the LAST intent of the map iteration contributed - nil, if that one has
+// no errors, although HasErrors() is true.
+func ruleJoinAccumulates(w *core.World, r *core.Report, rule string) {
+	for _, name := range []string{"JoinErrors", "JoinWarnings"} {
+		f := w.Func("pkg/types", "ValidationResults", name)
+		if f == nil {
+			continue
+		}
+		ret := core.ReturnSlice(f, -1)
+		n := 0
+		for _, b := range f.Blocks {
+			for _, in := range b.Instrs {
+				phi, ok := in.(*ssa.Phi)
+				if !ok || !ret.HasValue(phi) {
+					continue
+				}
+				for i, e := range phi.Edges {
+					if i >= len(b.Preds) {
+						continue
+					}
+					pred := b.Preds[i]
+					if len(pred.Instrs) == 0 {
+						continue
+					}
+					// an edge from inside the loop: the head is reachable again from its predecessor
+					if !blockReaches(b, pred) {
+						continue
+					}
+					n++
+					sl := core.DataSlice(f, []ssa.Value{e})
+					r.Check(e == ssa.Value(phi) || sl.HasValue(phi), rule, core.Site(f, "accumulator %s carried round the loop", phi.Comment), w.InstrPos(phi), "the value kept for the next iteration must be computed from the value kept so far (errors.Join(result, ...)); overwritten, only the last intent's messages survive")
+				}
+			}
+		}
+		_ = n
+	}
+}
+
+// blockReaches: some path leads from a to b (a == b counts only through a cycle).
+func blockReaches(a, b *ssa.BasicBlock) bool {
+	seen := map[*ssa.BasicBlock]bool{}
+	work := append([]*ssa.BasicBlock{}, a.Succs...)
+	for len(work) > 0 {
+		x := work[len(work)-1]
+		work = work[:len(work)-1]
+		if x == b {
+			return true
+		}
+		if seen[x] {
+			continue
+		}
+		seen[x] = true
+		work = append(work, x.Succs...)
+	}
+	return false
+}
+
+// lostReceiverWrites lists the stores a method with a VALUE receiver makes to a field of that receiver: they change the
+// method's private copy and are lost when it returns. (SSA: the receiver parameter is spilled to a local Alloc whose
+// only other store is the parameter itself; the store goes to a FieldAddr of that Alloc.)
+func lostReceiverWrites(f *ssa.Function) []*ssa.Store {
+	if f.Signature == nil || f.Signature.Recv() == nil || len(f.Params) == 0 {
+		return nil
+	}
+	if _, isPtr := f.Signature.Recv().Type().Underlying().(*types.Pointer); isPtr {
+		return nil
+	}
+	if _, isStruct := f.Signature.Recv().Type().Underlying().(*types.Struct); !isStruct {
+		return nil
+	}
+	recv := f.Params[0]
+	var spill *ssa.Alloc
+	for _, ref := range *recv.Referrers() {
+		if st, ok := ref.(*ssa.Store); ok && st.Val == ssa.Value(recv) {
+			if a, ok := st.Addr.(*ssa.Alloc); ok {
+				spill = a
+			}
+		}
+	}
+	if spill == nil {
+		return nil
+	}
+	var out []*ssa.Store
+	for _, ref := range *spill.Referrers() {
+		fa, ok := ref.(*ssa.FieldAddr)
+		if !ok {
+			continue
+		}
+		for _, r2 := range *fa.Referrers() {
+			if st, ok := r2.(*ssa.Store); ok && st.Addr == ssa.Value(fa) {
+				out = append(out, st)
+			}
+		}
+	}
+	return out
+}
+
+// ruleSameGetter (C09, C12, C15): utils.EqualTypedValues compares like with like: an == / != whose two operands are
+// results of argument-less getters of the same receiver type (v1.X.GetPrefix() == v2.X.GetPrefix()) calls the SAME
+// getter on both sides. Comparing one value's prefix with the other's module makes two identical values unequal.
+func ruleSameGetter(w *core.World, r *core.Report, rule string) {
+	f := w.Func("pkg/utils", "", "EqualTypedValues")
+	if f == nil {
+		return
+	}
+	getter := func(v ssa.Value) *ssa.Call {
+		c, ok := v.(*ssa.Call)
+		if !ok || c.Call.IsInvoke() {
+			return nil
+		}
+		g := c.Call.StaticCallee()
+		if g == nil || g.Signature.Recv() == nil || len(c.Call.Args) != 1 {
+			return nil
+		}
+		return c
+	}
+	n := 0
+	core.WithHost(f, func() {
+		for _, b := range core.Blocks(f) {
+			for _, in := range b.Instrs {
+				bo, ok := in.(*ssa.BinOp)
+				if !ok || (bo.Op != token.EQL && bo.Op != token.NEQ) {
+					continue
+				}
+				x, y := getter(bo.X), getter(bo.Y)
+				if x == nil || y == nil {
+					continue
+				}
+				gx, gy := x.Call.StaticCallee(), y.Call.StaticCallee()
+				if !types.Identical(gx.Signature.Recv().Type(), gy.Signature.Recv().Type()) {
+					continue
+				}
+				n++
+				r.Check(gx == gy, rule, core.Site(f, "%s compared with itself", gx.Name()), w.InstrPos(bo), fmt.Sprintf("the comparison pairs %s of one value with %s of the other: identical values whose two attributes differ compare unequal", gx.Name(), gy.Name()))
+			}
+		}
+	})
+	r.Extra["same_getter_comparisons"] = n
+}
+
+// ruleElemAppendOwned (C11, C13): append never aliases the elements of two paths. Wherever a value is stored into the
+// Elem field of an sdcpb.Path (assignment or composite literal) and that value comes from append(<elements of a path
+// P>, ...), P is the very path that receives it (np.Elem = append(np.Elem, ...) on the function's own clone). The
+// append of another path's elements shares P's backing array when it has spare capacity: sibling paths built from one
+// parent then all end in the element appended last.
+func ruleElemAppendOwned(w *core.World, r *core.Report, rule string) {
+	const elemField = "github.com/sdcio/sdc-protos/sdcpb.Path.Elem"
+	n := 0
+	for _, f := range w.RepoFns {
+		if f.Pkg == nil {
+			continue
+		}
+		pp := f.Pkg.Pkg.Path()
+		if !(strings.HasPrefix(pp, core.Module+"/pkg/utils") || strings.HasPrefix(pp, core.Module+"/pkg/tree") || strings.HasPrefix(pp, core.Module+"/pkg/datastore") || strings.HasPrefix(pp, core.Module+"/pkg/schema")) || strings.Contains(pp, "/mocks/") {
+			continue
+		}
+		for _, b := range f.Blocks {
+			for _, in := range b.Instrs {
+				st, ok := in.(*ssa.Store)
+				if !ok {
+					continue
+				}
+				fa, ok := st.Addr.(*ssa.FieldAddr)
+				if !ok || core.FieldKey(fa) != elemField {
+					continue
+				}
+				for _, o := range core.Origins(st.Val) {
+					ac, ok := o.(*ssa.Call)
+					if !ok {
+						continue
+					}
+					bi, isB := ac.Call.Value.(*ssa.Builtin)
+					if !isB || bi.Name() != "append" || len(ac.Call.Args) == 0 {
+						continue
+					}
+					if sl, isSl := ac.Call.Args[0].(*ssa.Slice); isSl && sl.Max != nil {
+						continue // x[:n:n]: the append cannot write into x's backing array
+					}
+					// the path whose elements are appended to
+					var src ssa.Value
+					for _, ao := range append(core.Origins(ac.Call.Args[0]), ac.Call.Args[0]) {
+						switch x := ao.(type) {
+						case *ssa.UnOp:
+							if xfa, ok := x.X.(*ssa.FieldAddr); ok && core.FieldKey(xfa) == elemField {
+								src = xfa.X
+							}
+						case *ssa.Call:
+							if core.CalleeIs(x, "github.com/sdcio/sdc-protos/sdcpb.Path.GetElem") {
+								src = core.CallRecv(x)
+							}
+						}
+					}
+					if src == nil {
+						continue
+					}
+					n++
+					r.Check(src == fa.X || core.SameObject(src, fa.X), rule, core.Site(f, "append to the elements of the path that is assigned"), w.InstrPos(st), "the elements of ANOTHER path are appended to and become the Elem of this one: with spare capacity both share the backing array, and the next append through the other path overwrites this path's last element")
+				}
+			}
+		}
+	}
+	r.Extra["elem_appends"] = n
+}
